@@ -67,7 +67,9 @@ CLAIMED['C09'] = dict(
     text=_LINEN + 'C09 verdicts: key identities (seed stream, path, per-scope count; concatenated path without the separator fix): two '
          'draws have equal key bits iff the specification gives them equal identities, across init and apply, for make_rng and parameter '
          'initialisers, with the missing-stream fallback to params, in both flag settings toggled in one process; TLC proves NoReuse with '
-         'the separator and finds the (a,b)/(ab) collision without it.',
+         'the separator and finds the (a,b)/(ab) collision without it. NnxRng.tla: nnx.Rngs streams (draw, fallback to default, split_rngs '
+         'with backups, draws per index under a vmap, restore_rngs, reseed with an int or a key) with key identities Base/Fold/Split; '
+         'histories replayed on real nnx.Rngs with the same bijection check (resume-not-replay, reseed restarts).',
     technique='TLA+ key-identity model + TLC; spec->code replay comparing key bits with identities (bijection check)',
     design_ref='3/C09')
 
